@@ -237,3 +237,14 @@ package webtransport
 //@     assert [C13.wmlen]   $w.pos - 9 + len($extra) == len(old(data))
 //@     assert [C13.wmhead]  forall k int :: 0 <= k && k < $w.pos - 9 ==> c.writeBuf[9 + k] == old(data[k])
 //@     assert [C13.wmtail]  backing($extra) == backing(old(data)) && off($extra) == off(old(data)) + ($w.pos - 9)
+
+// ---- prepared messages: prepared.go builds the wire bytes once per option set with sync.Once on a fake connection that
+// runs WriteMessage (proved above); the caching layer itself is outside the subset and summarised here
+//@ func NewPreparedMessage(messageType, data)
+//@   trusted "prepared.go (sync.Once cache around WriteMessage on a fake connection) is outside the subset"
+//@   fresh
+//@   ensures result1 == nil ==> result0 != nil
+//@ func (*Conn).WritePreparedMessage(pm)
+//@   trusted "prepared.go (sync.Once cache around WriteMessage on a fake connection) is outside the subset"
+//@   requires c != nil && pm != nil
+//@   modifies c.isWriting, c.writeErr
